@@ -78,6 +78,7 @@ PROPS = {
     },
     "C12": {
         "kind": "c12,std",
+        "jl": True,
         "module": "Props.C12",
         "namespace": "Jl.C12",
         "extra_theorem_files": [("Proofs.IntText", "Jl.IntText"), ("Proofs.LineFloats", "Jl.LineFloats")],
